@@ -126,6 +126,26 @@ fn doomed_tags(b: &umya::Spreadsheet, op: &Op) -> BTreeSet<String> {
                 cell_tags(&sheets[*sheet % n], &|col, row| col == c && row == r, &mut out);
             }
         }
+        Op::EditComment { sheet, nth, .. } => {
+            let ws = &sheets[*sheet % n];
+            if umya::verif_hooks::is_deserialized(ws) {
+                let cs = ws.get_comments();
+                if !cs.is_empty() {
+                    let mut inside = BTreeSet::new();
+                    tags_in(&cs[*nth % cs.len()].get_text().get_text(), &mut inside);
+                    let mut outside = BTreeSet::new();
+                    for (i, c) in cs.iter().enumerate() {
+                        if i != *nth % cs.len() {
+                            tags_in(&c.get_text().get_text(), &mut outside);
+                        }
+                    }
+                    for c in ws.get_cell_collection() {
+                        tags_in(&c.get_value(), &mut outside);
+                    }
+                    out.extend(inside.difference(&outside).cloned());
+                }
+            }
+        }
         Op::SheetRemoveRow { sheet, row, n: cnt } => cell_tags(&sheets[*sheet % n], &|_, r| r >= *row && r < *row + *cnt, &mut out),
         Op::SheetRemoveCol { sheet, col, n: cnt } => cell_tags(&sheets[*sheet % n], &|c, _| c >= *col && c < *col + *cnt, &mut out),
         Op::RemoveSheet { sheet } => {
@@ -393,9 +413,11 @@ pub fn cases(run_seed: u64, tier: &str, _scratch: &str) -> Vec<Value> {
                 0 => {
                     let sheet = wl.usize(sheets);
                     let cell = world::gen_cell(&mut wl, ncells);
-                    let op = match wl.usize(8) {
+                    let op = match wl.usize(10) {
                         0 => Op::SetRich { sheet, cell, parts: vec![tag.clone(), world::gen_text(&mut wl, alpha, 2)] },
                         1 => Op::Comment { sheet, cell, author: "au".into(), text: format!("{}{}", tag, world::gen_text(&mut wl, alpha, 2)) },
+                        8 => Op::CommentRich { sheet, cell, author: "au".into(), parts: vec!["au:".into(), format!("{}{}", tag, world::gen_text(&mut wl, alpha, 2)), format!(" ~h{}s{}~x", h, 5000 + k)] },
+                        9 => Op::EditComment { sheet, nth: wl.usize(8), text: format!("{}{}", tag, world::gen_text(&mut wl, alpha, 2)) },
                         2 => Op::SetNum { sheet, cell, v: wl.below(50) as f64 },
                         _ => Op::SetText { sheet, cell, v: format!("{}{}", tag, world::gen_text(&mut wl, alpha, 3)) },
                     };
